@@ -591,12 +591,23 @@ class Evaluator:
             if isinstance(v, Agg) and v.adt == pat["adt"]:
                 if v.var == name:
                     self.bind(pat, v, binds)
-                    return Cond("true"), binds
+                    c = Cond("true")
+                    for s in pat.get("subs", []):
+                        fv = v.fields.get(s["f"]) if s["f"] in v.fields else v.fields.get(str(s["idx"]))
+                        if fv is not None and s["p"]["k"] not in ("Bind", "Wild"):
+                            c = self.logic("and", c, self.pat_cond(s["p"], fv, env)[0])
+                    return c, binds
                 return Cond("false"), binds
-            # bind sub patterns to projections
+            # bind sub patterns to projections; refutable sub patterns refine the condition
+            c = Cond("sym", "is%s(%s)" % (name, vkey(v)))
             for s in pat.get("subs", []):
-                self.bind(s["p"], Sym("payload(%s,%s)" % (vkey(v), name)), binds)
-            return Cond("sym", "is%s(%s)" % (name, vkey(v))), binds
+                pv = Sym("payload(%s,%s)" % (vkey(v), name))
+                self.bind(s["p"], pv, binds)
+                if s["p"]["k"] not in ("Bind", "Wild"):
+                    sc, sb = self.pat_cond(s["p"], pv, env)
+                    if not (isinstance(sc, Cond) and sc.op == "true"):
+                        c = self.logic("and", c, sc)
+            return c, binds
         if k == "Bind":
             self.bind(pat, v, binds)
             return Cond("true"), binds
@@ -1025,7 +1036,7 @@ class Evaluator:
                 c = self.as_cond(self.eval(tb, n["cond"], env, depth))
             if not followed:
                 out.append({"cond": c, "guard": guard, "where": "%s:%s" % (sp.get("f"), sp.get("l")), "fn": path,
-                            "has_else": n.get("else") is not None})
+                            "has_else": n.get("else") is not None, "node": i, "tb": tb})
             env_t = dict(env)
             env_t.update(binds)
             g2 = guard + ((ckey(c),) if not followed else ())
